@@ -18,6 +18,7 @@ from .. import rng as R
 ID = "C10"
 TOL_AMOUNT = Fraction(1, 10**18)  # property: "changes nothing beyond 1e-18" (token amounts)
 WALLET_EPS = Fraction(1, 10**24)  # wallet arithmetic is Decimal at 35 significant digits; balances < 1e10 keep >= 24 exact places
+WALLET_REL = Fraction(1, 10**33)  # ... and larger balances (an overdrawn account can borrow a lot) keep 33 significant digits
 SNAP_REL = Fraction(1, 10**5)  # Asset.sub documents: a debit within 0.001% of the balance takes the whole balance
 PHASES = ["initialize", "before_bar", "trigger", "on_bar", "after_bar", "notify"]
 WRITE_KINDS = {"aave.supply": "supply", "aave.withdraw": "withdraw", "aave.borrow": "borrow", "aave.repay": "repay"}
@@ -55,19 +56,30 @@ def generate(seed: int, tier: str = "quick") -> dict:
     nops = rp.choice([4, 6, 8, 12, 16, 24])
     slots = sorted((rp.randint(-1, nb - 1), rp.choice([1, 2, 3, 3, 4])) for _ in range(nops))
     supplied, borrowed = set(), set()
+    overdraft = R.sub(seed, "overdraft").random() < 0.1
+    if overdraft:
+        # Actuator(allow_negative_balance=True): the wallet subtracts exactly (no snap-to-zero), may go below zero
+        world["allow_negative_balance"] = True
+        faults.append({"kind": "overdraft_allowed"})
+    rx = R.sub(seed, "extras")
     for j, (b, ph) in enumerate(slots):
         phase = "initialize" if b == -1 else PHASES[ph]
         r = rp.random()
         o = None
+        if supplied and rx.random() < 0.07:
+            # the collateral flag of a supply is switched: balances must not notice
+            program.append({"op": "aave.change_collateral", "a": {"token": {"supplied": rx.randint(0, 3)}}, "bar": b, "phase": phase, "m": "aave0"})
         if not supplied or r < 0.32:
             t = rp.choice(toks)
             dec = rp.choice([0, 2, 6, 18])
             amt = Decimal(A.dstr(float(BASE_UNITS(world, t)) * rp.uniform(0.2, 5), dec))
+            if overdraft and rx.random() < 0.35:  # (nearly) the whole wallet balance, a little less or a little more
+                amt = {"f": "wallet", "x": rx.choice(["0.999995", "0.999999", "1", "1.000004", "1.3"])}
             flag = coll_flag[t]
             if rf.random() < 0.04:
                 flag = not flag  # reject:supply:flag differs from the existing supply / token not usable as collateral
                 faults.append({"kind": "reject:supply:flag", "bar": b})
-            o = {"op": "aave.supply", "a": {"token": t, "amount": str(amt), "collateral": flag}}
+            o = {"op": "aave.supply", "a": {"token": t, "amount": amt if isinstance(amt, dict) else str(amt), "collateral": flag}}
             if rf.random() < 0.03:
                 o["a"]["amount"] = "100000000"  # reject:supply:wallet short
                 faults.append({"kind": "reject:supply:wallet", "bar": b})
@@ -323,10 +335,10 @@ class LedgerOracle(Oracle):
         for tok in sorted(set(self.w0) | set(w1) | set(moved_wallet)):
             before, after = self.w0.get(tok, Fraction(0)), w1.get(tok, Fraction(0))
             want = moved_wallet.get(tok, Fraction(0))
-            if want < 0 and before > 0 and abs(before + want) < SNAP_REL * before:
+            if want < 0 and before > 0 and abs(before + want) < SNAP_REL * before and not sim.world.get("allow_negative_balance"):
                 sim.count("probe:wallet_snap_zone")
                 continue
-            if abs((after - before) - want) > WALLET_EPS:
+            if abs((after - before) - want) > max(WALLET_EPS, WALLET_REL * max(abs(before), abs(after))):
                 return self._v(sim, f"{name}:ok:wallet_delta", token=tok, got=fstr(after - before), want=fstr(want))
         self._compare(sim, f"{name}:ok")
         both = t in self.sup.tokens() and t in self.debt.tokens()
@@ -517,8 +529,8 @@ LEVEL = "exploration"
 ASSUMPTIONS = [
     "requested amounts have at most 18 decimal places (no token has more); pieces of a cross-bar split are index-compensated to 34 digits",
     "a residue whose scaled amount is below 1e-18 (token amount below 1e-18 x index) may either vanish or stay: the clamp of sub_base_amount is part of the property",
-    "wallet deltas are compared to 1e-24: wallet arithmetic is Decimal with 35 significant digits and balances stay below 1e10",
-    "a wallet debit within 0.001% of the whole balance is not checked (Asset.sub documents that it then takes the whole balance)",
+    "wallet deltas are compared to 1e-24, or to 1e-33 of the balance where that is larger: wallet arithmetic is Decimal with 35 significant digits",
+    "a wallet debit within 0.001% of the whole balance is not checked (Asset.sub documents that it then takes the whole balance) - except in the 10 % of the worlds whose account may be overdrawn, where the wallet subtracts exactly and is held to that",
     "what a liquidation takes is C12's subject: when one occurs the ledger adopts the positions it left (as fresh lots at that bar's indices) and continues; twin runs are compared up to that bar",
     "twin runs are compared only on bars where every request of run X and all of its pieces in run Y had the same outcome and no cross-bar split is in flight; with a cross-bar split wallets are not compared (the compensated pieces differ by design)",
     "borrow(None) takes the amount stated on the recorded action as the stated amount",
